@@ -5,7 +5,8 @@ bit-trick square root with the magic constants read from the source by translate
 Tie: correspondence, std AND no_std builds: the model's executable definitions are run inside coqc on
 the same histories as dasp_rms (and the dasp_signal adaptor), every observation compared bit for bit;
 the property verdict (error bound E, non-negative, not NaN) is evaluated on the model run with the
-SAME Coq function E that the drift theorem is about."""
+SAME Coq function E that the drift theorem c11_drift_bound is about (proved end to end for the IEEE
+run: Dsp/RmsDrift.v, RmsProjProofs.v, RmsDriftProofs.v, RmsOutProofs.v)."""
 import json, os, re, struct, glob, sys
 from concurrent.futures import ThreadPoolExecutor
 import framework as F
@@ -14,7 +15,7 @@ import floatbase
 PROP = "C11"
 META = dict(
     technique="Coq proof (exact-arithmetic value theorem on reals + IEEE safety theorems on Flocq floats + bit-trick sqrt bound) + coqc-evaluated model vs crate correspondence in the std and the no_std build",
-    text="Machine-checked (Coq 8.16.1): a model of dasp_rms::Rms written after the source over a numeric record; on Coq reals the detector's output is exactly sqrt(mean of squares of the last N inputs, zero-padded) for every history with resets, every N >= 1 and channel count, the clamp never fires, reset restores the zero state, the signal adaptor is the detector fed frame by frame; on IEEE binary32/binary64 the output is never negative or NaN while the running sum stays finite; the no_std square-root bit trick (magic constants read from ops.rs) has the bit pattern of 1.0 as its magic and is within 7% of the true root. The model is tied to the crates by running it inside coqc on the same histories as the real detector, in a std and in a no_std configured build, comparing every output, the running sum and the window bit for bit, and by checking the running sum against an exact dyadic recomputation with the executable error bound E.",
+    text="Machine-checked (Coq 8.16.1): a model of dasp_rms::Rms written after the source over a numeric record; on Coq reals the detector's output is exactly sqrt(mean of squares of the last N inputs, zero-padded) for every history with resets, every N >= 1 and channel count, the clamp never fires, reset restores the zero state, the signal adaptor is the detector fed frame by frame; on IEEE binary32/binary64 the output is never negative or NaN while the running sum stays finite, and (drift bound, proved by induction along the Flocq run for every history with resets and every N >= 1) the stored running sum stays within the executable error bound E of the exact sum of the squares of the last N inputs whenever no stored sum is infinite or NaN, with the corollary |out - rms| <= (1+3u) sqrt(E/N) + 3u rms + 3 sqrt(eta) for the std output (N <= 2^24); the no_std square-root bit trick (magic constants read from ops.rs) has the bit pattern of 1.0 as its magic and is within 7% of the true root. The model is tied to the crates by running it inside coqc on the same histories as the real detector, in a std and in a no_std configured build, comparing every output, the running sum and the window bit for bit, and by checking the running sum against an exact dyadic recomputation with the executable error bound E -- the same Coq function the proved drift bound is about.",
     note="Trusted: Coq kernel + stdlib real/classical axioms (allow-listed); Flocq's IEEE-754 model validated against rustc (lib/floatbase.py); the hand-written model validated only through the correspondence; translate/sqrt_magic.py; harnesses and generators. Overflow of x*x is known-finding class K4 (theorems assume it away).",
     design="6/C11")
 HEADER = "From Dasp Require Import Dsp.RmsRun."
@@ -594,7 +595,7 @@ def finish(rep, info, items, outl, codes, dist, nostd_ok, bad=()):
     dist.update(hist)
     dist["frames_total"] = sum(1 for it in items for o in it["ops"] if o[0] in ("n", "q"))
     dist["no_std_harness"] = "built" if nostd_ok else ("not built" if nostd_ok is not None else "n/a")
-    drift_proved = "c11_drift_bound" in th
+    drift_proved = all(n in th for n in ("c11_drift_bound", "c11_drift_bound_f32", "c11_drift_bound_f64"))
     samples = [items[i]["line"][:400] for i in (0, len(items) // 2, len(items) - 1)] if items else []
     cov = {
         "obligations": max(1, len(th)), "discharged": len(th) if info.get("coq_ok") else 0,
@@ -608,16 +609,22 @@ def finish(rep, info, items, outl, codes, dist, nostd_ok, bad=()):
         "evaluations": len(items), "distinct_nontrivial": nontriv,
         "rule": "non-trivial = detector history with more than N pushes since new/reset (a non-zero square is evicted, the subtract-evicted path and the clamp matter) AND (loud-then-quiet pattern OR a reset strictly inside the history; this includes the family that resets at a running sum of exactly 0 over a non-zero window), or an adaptor over a non-empty finite source pulled at least 2N frames past its exhaustion",
         "samples": samples, "input_distribution": dist, "disagreements": len(bad),
-        "error_bound": ("tolerance E (Dsp/RmsErr.v) is PROVED: c11_drift_bound" if drift_proved else
+        "error_bound": ("tolerance E (Dsp/RmsErr.v: e_push/e_next, the same Coq function evaluated in the verdict) is PROVED end to end for the IEEE run: "
+                        "c11_drift_bound (any binary format) and its instances c11_drift_bound_f32 / c11_drift_bound_f64 on the executed models show, by induction along the "
+                        "Flocq run (Bmult/Bplus/Bminus_correct + Relative.error_N_FLT, eviction tied to the oldest exact square, clamp, resets), that after every number of "
+                        "operations of every history on a zero-initialised window |square_sum - exact sum of the last N squares| <= E in every channel, under the hypothesis the "
+                        "verdict itself tests (every stored running sum finite); c11_output_bound_f32/_f64 carry it to the std output; c11_verdict_accepts_model_f32/_f64: the executable verdict e_verdict "
+                        "accepts every such model run (so crate = model bit for bit is what carries the bound to the crate); c11_drift_step is the real-number step"
+                        if drift_proved else
                         "tolerance E (Dsp/RmsErr.v, the same Coq function evaluated in the verdict) is ARGUED, NOT PROVED end to end for the IEEE run: "
                         "c11_drift_bound_partial proves that one step of the executable recurrence (e_next, including its upward rounding) bounds the error of "
                         "clamp(fl(fl(s + fl(x*x)) - fl(r))) under the standard rounding model |fl(t)-t| <= u|t| + eta of the three operations; "
                         "the induction along the Flocq run of the model (discharging those hypotheses with Bmult/Bplus/Bminus_correct) is missing"),
-        "explanation": "theorems: value/reset/clamp/adaptor on exact reals for all N, channel counts, histories; non-negative and non-NaN on IEEE floats under finiteness; no_std sqrt trick; tie: the model's executable definitions run by coqc on the same histories as dasp_rms in a std and a no_std configured build, all observations bit-exact, plus the error-bound verdict against exact dyadic recomputation",
+        "explanation": "theorems: value/reset/clamp/adaptor on exact reals for all N, channel counts, histories; non-negative and non-NaN on IEEE floats under finiteness; drift bound E of the IEEE running sum and output bound (all N, channel counts, histories with resets; f32 and f64); no_std sqrt trick; tie: the model's executable definitions run by coqc on the same histories as dasp_rms in a std and a no_std configured build, all observations bit-exact, plus the error-bound verdict against exact dyadic recomputation",
     }
     return rep.finish("proof", cov, [
-        "x*x and the running sum do not overflow (class K4 otherwise)",
-        "window length N <= 2^24 for the IEEE statements (`len as f32` is exact); the exact-arithmetic theorems hold for every N >= 1",
+        "x*x and the running sum do not overflow (class K4 otherwise): in the drift theorems this is the explicit hypothesis `sums_ok .. is_finite` (every stored running sum of the run is finite), non-vacuous by RmsExamples.drift_hyps / drift_hyps64",
+        "window length N <= 2^24 for the IEEE output statements (`len as f32` is exact); the drift bound of the running sum and the exact-arithmetic theorems hold for every N >= 1",
         "the window handed to Rms::new is zero-initialised (the property's precondition); other windows are compared bit-exactly only",
         "the no_std dasp_signal adaptor is exercised through harness_nightly_nostd (cargo +nightly: feature(core_intrinsics)); the no_std detector through the stable harness_nostd"])
 
